@@ -150,7 +150,7 @@ def runCore (line : String) : String :=
         challenge := (hexD (kv ct "chal" ""))
         writeFails := fun k => wfl.contains k
         maskKey := testKey
-        inflate := Inflate.inflateAll }
+        inflate := if kv ct "zsafe" "0" = "1" then Inflate.inflateAllSafe else Inflate.inflateAll }
     let env := (envS.splitOn " ").filterMap parseEnvTok
     let table := parseReactions (reactS.splitOn " ")
     let react : React := fun hist =>
@@ -394,15 +394,17 @@ def runConnect (arg : String) : String :=
     | .close i => "close" ++ toString i
   rs ++ " " ++ ",".intercalate (l.map showCall)
 
-/-- C06: `inflate <wbits> <hex>`: the bit-level inflater on a whole compressed history -/
-def runInflate (args : List String) : String :=
+/-- C06: `inflate <wbits> <hex>` / `inflatesafe <wbits> <hex>`: the bit-level inflater on a whole
+    compressed history, as zlib's object behaves / as the repaired `Deflate.decompress` behaves -/
+def runInflate (safe : Bool) (args : List String) : String :=
+  let f := if safe then Inflate.inflateAllSafe else Inflate.inflateAll
   match args with
   | [w, hx] =>
-    match Inflate.inflateAll (natOf w) (hexD hx) with
+    match f (natOf w) (hexD hx) with
     | none => "error"
     | some out => "ok " ++ hexOfBytes out
   | [w] =>
-    match Inflate.inflateAll (natOf w) [] with
+    match f (natOf w) [] with
     | none => "error"
     | some out => "ok " ++ hexOfBytes out
   | _ => "bad-op"
@@ -559,7 +561,8 @@ def handle (line : String) : String :=
     match line.splitOn " " with
     | "utf8" :: args => runUtf8 args
     | "deflateopts" :: args => runDeflateOpts args
-    | "inflate" :: args => runInflate args
+    | "inflate" :: args => runInflate false args
+    | "inflatesafe" :: args => runInflate true args
     | "frame" :: args => runFrame args
     | "http" :: args => runHttp args
     -- differential test of harness/py2lean.py: evaluate a generated definition
